@@ -1,10 +1,12 @@
 import SSEPyVerif.Driver.BytesD
 import SSEPyVerif.Driver.CryptoD
+import SSEPyVerif.Driver.PersistD
 
 open SSEPy SSEPy.Driver
 
 structure DState where
   tables : Tables := {}
+  parr : Option PArray.PArr := none
 
 def dispatch (st : DState) (line : String) : DState × String :=
   match (line.trimAscii.toString.splitOn " ") with
@@ -16,6 +18,7 @@ def dispatch (st : DState) (line : String) : DState × String :=
   | "aes" :: rest => (st, aesReq st.tables rest)
   | "ffx" :: rest => (st, ffxReq st.tables rest)
   | "lr" :: rest => (st, lrReq st.tables rest)
+  | "parr" :: rest => let (p, r) := parrReq st.parr rest; ({ st with parr := p }, r)
   | _ => (st, Proto.bad)
 
 partial def loop (hin : IO.FS.Stream) (hout : IO.FS.Stream) (st : DState) : IO Unit := do
